@@ -59,7 +59,7 @@ func Compile(grammar *Grammar, opts Options) (*Tables, error) {
 	}
 
 	if opts.MinimizeDFA {
-		minimize(c.out, grammar)
+		minimize(c.out, grammar, c.empty)
 	}
 	if opts.Optimize && c.out.UsedLADepth == 0 {
 		// Note: the displacement encoding cannot represent deep lookahead entries (lalr(k), k > 1),
